@@ -1,6 +1,6 @@
 //! In-child guards for C20 (the child is `chk_persist --worker C20`):
 //!  * a watchdog thread that ends the process when one load runs longer than `LOAD_DEADLINE_MS`
-//!    (exit code 140+code) or when the live heap exceeds `LIVE_LIMIT` (exit code 180+code);
+//!    or when the live heap exceeds `LIVE_LIMIT` (exit code 140+code in both cases);
 //!  * a SIGABRT handler that turns an abort (Rust's stack-overflow guard, alloc error, explicit
 //!    abort) into exit code 100+code,
 //! where `code = format index * 4 + source kind` of the load in progress. vcore's isolate layer
@@ -11,7 +11,7 @@ use std::sync::atomic::{AtomicBool, AtomicU32, AtomicU64, Ordering};
 use std::time::{SystemTime, UNIX_EPOCH};
 
 pub const LOAD_DEADLINE_MS: u64 = 15_000;
-pub const LIVE_LIMIT: usize = 6 << 30;
+pub const LIVE_LIMIT: usize = 4 << 30;
 
 static CODE: AtomicU32 = AtomicU32::new(0);
 /// start of the load in progress (ms since epoch), 0 = none
@@ -55,8 +55,10 @@ pub fn install() {
             if st != 0 && now_ms().saturating_sub(st) > LOAD_DEADLINE_MS {
                 unsafe { libc::_exit(140 + code) }
             }
+            // same exit code as the deadline: a load that does not end shows up as one or the
+            // other depending on the machine's speed
             if st != 0 && crate::alloc::live_bytes() > LIVE_LIMIT {
-                unsafe { libc::_exit(180 + code) }
+                unsafe { libc::_exit(140 + code) }
             }
         })
         .expect("spawn watchdog");
@@ -66,8 +68,7 @@ pub fn install() {
 pub fn explain_exit(code: i32) -> String {
     let (what, c) = match code {
         100..=139 => ("abort (SIGABRT: stack overflow guard, allocation failure or explicit abort)", code - 100),
-        140..=179 => ("hang (one load exceeded 15 s)", code - 140),
-        180..=219 => ("memory (live heap exceeded 6 GiB during one load)", code - 180),
+        140..=179 => ("watchdog (one load ran longer than 15 s or its live heap exceeded 4 GiB)", code - 140),
         _ => return format!("exit code {}", code),
     };
     let fmt = ["binary", "compressed", "json", "sql"][(c / 4).clamp(0, 3) as usize];
